@@ -25,6 +25,27 @@ import (
 )
 
 func main() {
+	if len(os.Args) >= 4 && os.Args[1] == "family" {
+		// c20probe family <family.json> <scratch dir> : statement counts of one family (replay)
+		data, err := os.ReadFile(os.Args[2])
+		if err != nil {
+			fatal(err)
+		}
+		var f props.Family20
+		if err := json.Unmarshal(data, &f); err != nil {
+			fatal(err)
+		}
+		sizes := f.Sizes
+		if len(sizes) == 0 {
+			sizes = []int{1000, 4000, 16000}
+		}
+		counts, ok := measureFamily(f, os.Args[3], "replay", sizes)
+		if !ok {
+			counts = nil
+		}
+		json.NewEncoder(os.Stdout).Encode(counts)
+		return
+	}
 	if len(os.Args) < 4 {
 		fmt.Fprintln(os.Stderr, "usage: c20probe <scratch dir> <worker index> <worker count> [size ...]")
 		os.Exit(2)
@@ -49,45 +70,47 @@ func main() {
 		if i%workers != worker {
 			continue
 		}
-		if warm, ok := props.Prepare20(f, 8); ok {
-			warm()
-		} else {
-			continue
-		}
-		var counts []uint64
-		okAll := true
-		for _, n := range sizes {
-			m, ok := props.Prepare20(f, n)
-			if !ok {
-				okAll = false
-				break
-			}
-			dir := filepath.Join(scratch, fmt.Sprintf("w%d-f%d-n%d", worker, i, n))
-			if err := os.MkdirAll(dir, 0o755); err != nil {
-				fatal(err)
-			}
-			if err := coverage.ClearCounters(); err != nil {
-				fatal(fmt.Errorf("ClearCounters: %v (binary not built with -cover -covermode=atomic?)", err))
-			}
-			m()
-			if err := coverage.WriteCountersDir(dir); err != nil {
-				fatal(err)
-			}
-			if err := coverage.WriteMetaDir(dir); err != nil {
-				fatal(err)
-			}
-			c, err := sumStatements(dir)
-			if err != nil {
-				fatal(err)
-			}
-			os.RemoveAll(dir)
-			counts = append(counts, c)
-		}
-		if okAll {
+		if counts, ok := measureFamily(f, scratch, fmt.Sprintf("w%d-f%d", worker, i), sizes); ok {
 			out[f.Name] = counts
 		}
 	}
 	json.NewEncoder(os.Stdout).Encode(out)
+}
+
+func measureFamily(f props.Family20, scratch, tag string, sizes []int) ([]uint64, bool) {
+	if warm, ok := props.Prepare20(f, 8); ok {
+		warm()
+	} else {
+		return nil, false
+	}
+	var counts []uint64
+	for _, n := range sizes {
+		m, ok := props.Prepare20(f, n)
+		if !ok {
+			return nil, false
+		}
+		dir := filepath.Join(scratch, fmt.Sprintf("%s-n%d", tag, n))
+		if err := os.MkdirAll(dir, 0o755); err != nil {
+			fatal(err)
+		}
+		if err := coverage.ClearCounters(); err != nil {
+			fatal(fmt.Errorf("ClearCounters: %v (binary not built with -cover -covermode=atomic?)", err))
+		}
+		m()
+		if err := coverage.WriteCountersDir(dir); err != nil {
+			fatal(err)
+		}
+		if err := coverage.WriteMetaDir(dir); err != nil {
+			fatal(err)
+		}
+		c, err := sumStatements(dir)
+		if err != nil {
+			fatal(err)
+		}
+		os.RemoveAll(dir)
+		counts = append(counts, c)
+	}
+	return counts, true
 }
 
 func fatal(err error) {
